@@ -198,7 +198,7 @@ func driveEnc(args []string) error {
 			rng := newRand(106)
 			verbs := []int{1, 3, 10, 17} // RelLineTo, RelSmoothQuadTo, AbsHLineTo, RelArcTo
 			for k, run := range []int{255, 256, 257, 300, 511, 512, 513, 600} {
-				vi := verbs[(k+int(seed()))%len(verbs)]
+				vi := verbs[(k/2+int(seed()))%len(verbs)]
 				if thorough() || k%2 == int(seed()%2) {
 					h := []Call{mkCall("StartPath", 1, 2)}
 					o := &progOpts{arcs: true, lattice: true}
@@ -207,6 +207,38 @@ func driveEnc(args []string) error {
 					}
 					h = append(h, mkCall("ClosePathEndPath"))
 					one(fmt.Sprintf("longruns/%s/%d", drawVerbs[vi].op, run), h)
+				}
+			}
+			// runs of 17..40 arcs whose operands all differ (every seed), absolute and relative
+			for _, vi := range []int{16, 17} {
+				for _, run := range []int{17, 33, 40} {
+					h := []Call{mkCall("StartPath", 1, 2)}
+					for j := 0; j < run; j++ {
+						c := mkCall(drawVerbs[vi].op, float32(3+j), float32(5+2*j), float32(j%8)/8, float32(j)-7.5, float32(2*j)+0.25)
+						c.Fl = []int{j % 2, j / 2 % 2}
+						h = append(h, c)
+					}
+					h = append(h, mkCall("ClosePathEndPath"))
+					one(fmt.Sprintf("longruns/%s/distinct/%d", drawVerbs[vi].op, run), h)
+				}
+			}
+		case "arcshapes":
+			// arcs whose operands stand in special relations (exact half circles, chord equal to the diameter or to zero,
+			// equal radii, radius equal to a coordinate) with values that are not multiples of 1/64, at both resolutions
+			for hi := 0; hi < 2; hi++ {
+				k := 0
+				for _, r0 := range []float32{2.505, 0.3, 10.01, 7.7, 1.0 / 3, 100.1} {
+					for _, sh := range [][5]float32{{1, 1, 0, 2, 0}, {1, 1, 0, 0, -2}, {1, 1, 0.25, -2, 0}, {1, 2, 0, 2, 0}, {1, 1, 0, 1, 1}, {0.5, 0.5, 0, 1, 0}, {1, 1, 0, 0, 0}} {
+						for _, op := range []string{"RelArcTo", "AbsArcTo"} {
+							k++
+							hs := mkCall("SetHiRes")
+							hs.Sel = hi
+							c := mkCall(op, sh[0]*r0, sh[1]*r0, sh[2], sh[3]*r0, sh[4]*r0)
+							c.Fl = []int{k % 2, k / 2 % 2}
+							h := []Call{hs, mkCall("StartPath", r0, -r0), c, mkCall("RelLineTo", r0, r0), mkCall("ClosePathEndPath")}
+							one(fmt.Sprintf("arcshapes/%d/%d", hi, k), h)
+						}
+					}
 				}
 			}
 		case "zerofirst":
